@@ -10,13 +10,13 @@ cd "$(dirname "$0")/harness" || exit 3
 BIN=$HOME/.rustup/toolchains/nightly-x86_64-unknown-linux-gnu/lib/rustlib/x86_64-unknown-linux-gnu/bin
 OUT=/verif/coverage; rm -rf "$OUT"; mkdir -p "$OUT/raw"
 export CARGO_NET_OFFLINE=true
-RUSTFLAGS="-Cinstrument-coverage" cargo +nightly build --release --offline --target-dir target/cov >"$OUT/build.log" 2>&1 || { tail -20 "$OUT/build.log"; exit 3; }
+LLVM_PROFILE_FILE="$OUT/raw/build-%p.profraw" RUSTFLAGS="-Cinstrument-coverage" cargo +nightly build --release --offline --target-dir target/cov >"$OUT/build.log" 2>&1 || { tail -20 "$OUT/build.log"; exit 3; }
 EXE=target/cov/release/rmlv
 for id in $IDS; do
   # a reduced deadline keeps the instrumented run short; the mandatory part always runs
   LLVM_PROFILE_FILE="$OUT/raw/$id-%p-%m.profraw" RMLV_ROOT="$OUT" VERIF_COVERAGE_RUN=1 timeout 600 $EXE run $id --tier quick --seed "$SEED" --no-evidence 2>&1 | grep -E "^SUMMARY" | cut -c1-150
 done
-$BIN/llvm-profdata merge -sparse "$OUT"/raw/*.profraw -o "$OUT/all.profdata" 2>>"$OUT/build.log"
+rm -f "$OUT"/raw/build-*.profraw; $BIN/llvm-profdata merge -sparse "$OUT"/raw/*.profraw -o "$OUT/all.profdata" 2>>"$OUT/build.log"
 $BIN/llvm-cov report $EXE -instr-profile="$OUT/all.profdata" --ignore-filename-regex='(\.cargo|/rustc/|harness/src|tests\.rs)' 2>/dev/null | grep -E "repo/|TOTAL|Filename|^-" > "$OUT/SUMMARY.txt"
 $BIN/llvm-cov show $EXE -instr-profile="$OUT/all.profdata" --ignore-filename-regex='(\.cargo|/rustc/|harness/src|tests\.rs)' --show-line-counts-or-regions 2>/dev/null > "$OUT/show.txt"
 python3 - "$OUT" <<'PY'
